@@ -11,7 +11,8 @@
 //!   P c08num <Variant> ..     observed tag number / element order against the protocol table
 //!   P c08wireprop <msg> <res> a structured message after the wire is the same message
 //!   P c08idprop <id> <term>   the serialised unlink message carries the id
-//! Failure classes for the defects of /repo: kf-c08-alias-send-tt-tag, kf-c08-unlink-id-bigint, kf-c08-unlink-id-sign.
+//! The three defects this check found (ALIAS_SEND_TT = 38, unlink ids as bignum rejected, ids >= 2^63 written as
+//! negative integers) are fixed in /repo (8d4cf38, 9ad9545); their former witnesses are ordinary cases here and must pass.
 use crate::canon::term_text;
 use crate::rng::Rng;
 use crate::tgen::{gen_pid, gen_term, gen_u64, Cfg};
@@ -20,10 +21,6 @@ use edp_client::control::{ControlMessage, ControlMessageType};
 use erltf::types::{Atom, BigInt, ExternalPid};
 use erltf::OwnedTerm;
 use std::panic::{catch_unwind, AssertUnwindSafe};
-
-pub const KF_ALIAS: &str = "kf-c08-alias-send-tt-tag";
-pub const KF_BIGINT: &str = "kf-c08-unlink-id-bigint";
-pub const KF_SIGN: &str = "kf-c08-unlink-id-sign";
 
 #[derive(Clone)]
 pub enum FV {
@@ -222,6 +219,13 @@ fn wide_alphabet() -> Vec<OwnedTerm> {
     v.push(big(false, &[0, 0, 0, 0, 0, 0, 0, 0, 1])); // 2^64
     v.push(big(true, &[1])); // -1
     v.push(big(false, &[7, 0, 0])); // 7 with non-minimal digits
+    v.push(big(false, &[255, 255, 255, 255, 255, 255, 255, 255, 0, 0])); // 2^64-1 with high zero digits
+    v.push(big(false, &[0, 0, 0, 0, 0, 0, 0, 128, 0])); // 2^63 with a high zero digit
+    v.push(big(false, &[0, 0, 0, 0, 0, 0, 0, 0, 0, 1])); // 2^72
+    v.push(big(false, &[1, 0, 0, 0, 0, 0, 0, 0, 1, 0, 0])); // 2^64+1 with high zero digits
+    v.push(big(true, &[0, 0])); // "negative" zero
+    v.push(big(false, &[])); // no digits at all
+    v.push(big(true, &[0, 0, 0, 0, 0, 0, 0, 128])); // -2^63
     v.push(OwnedTerm::Float(1.0));
     v.push(OwnedTerm::Binary(vec![1, 2, 3]));
     v.push(OwnedTerm::String("hi".to_string()));
@@ -230,44 +234,11 @@ fn wide_alphabet() -> Vec<OwnedTerm> {
     v
 }
 
-/// value of a non-negative bignum below 2^64
-fn big_u64(t: &OwnedTerm) -> Option<u64> {
-    if let OwnedTerm::BigInt(b) = t {
-        if b.sign == erltf::types::Sign::Negative && b.digits.iter().any(|x| *x != 0) {
-            return None;
-        }
-        if b.digits.iter().skip(8).any(|x| *x != 0) {
-            return None;
-        }
-        let mut n: u64 = 0;
-        for (i, x) in b.digits.iter().take(8).enumerate() {
-            n |= (*x as u64) << (8 * i);
-        }
-        return Some(n);
-    }
-    None
-}
-
-/// failure class of a `c08prop` observation: the known defects have their own classes
-fn class_of(t: &OwnedTerm) -> &'static str {
-    if let OwnedTerm::Tuple(els) = t {
-        if let Some(OwnedTerm::Integer(h)) = els.first() {
-            if (*h == 35 || *h == 36) && els.len() == 4 && big_u64(&els[1]).is_some() {
-                return KF_BIGINT;
-            }
-            if *h == 38 && els.len() == 4 {
-                return KF_ALIAS;
-            }
-        }
-    }
-    "gen"
-}
-
 fn one_term(ctx: &mut Ctx, t: &OwnedTerm) {
     let tt = term_text(t);
     let (res, m) = rt_result(t);
     ctx.tie("gen", &format!("c08rt {}", tt), &res);
-    ctx.prop(class_of(t), &format!("c08prop {} {}", tt, res), "ok");
+    ctx.prop("gen", &format!("c08prop {} {}", tt, res), "ok");
     match (&m, res.as_str()) {
         (Some(ControlMessage::Generic { .. }), _) => ctx.count("parsed_generic"),
         (Some(_), _) => ctx.count("parsed_structured"),
@@ -396,6 +367,18 @@ fn is_plain(t: &OwnedTerm) -> bool {
     }
 }
 
+/// terms `erltf::decode(erltf::encode(t))` returns as the very same Rust value (integers outside the i32 range
+/// come back as `BigInt`, `List([])` as `Nil`, so those are excluded)
+fn is_wire_stable(t: &OwnedTerm) -> bool {
+    match t {
+        OwnedTerm::Integer(i) => *i >= i32::MIN as i64 && *i <= i32::MAX as i64,
+        OwnedTerm::Tuple(l) => l.len() <= 255 && l.iter().all(is_wire_stable),
+        OwnedTerm::List(l) => !l.is_empty() && l.iter().all(is_wire_stable),
+        OwnedTerm::Atom(_) | OwnedTerm::Nil | OwnedTerm::Binary(_) | OwnedTerm::Pid(_) => is_plain(t),
+        _ => false,
+    }
+}
+
 fn gen_plain(r: &mut Rng, depth: u32) -> OwnedTerm {
     match r.below(if depth >= 2 { 5 } else { 7 }) {
         0 => atom(*r.pick(&["ok", "normal", "kill", "noproc", "true", "", "rex", "Elixir.Foo"])),
@@ -425,14 +408,6 @@ fn gen_field(r: &mut Rng, cfg: &Cfg, f: &str, plain: bool) -> OwnedTerm {
     }
 }
 
-fn wire_class(id: Option<u64>) -> &'static str {
-    match id {
-        Some(n) if n >= 1 << 63 => KF_SIGN,
-        Some(n) if n >= 1 << 31 => KF_BIGINT,
-        _ => "gen",
-    }
-}
-
 fn one_msg(ctx: &mut Ctx, m: &ControlMessage, id: Option<u64>) {
     let mt = msg_text(m);
     let to = catch_unwind(AssertUnwindSafe(|| m.to_term()));
@@ -445,17 +420,19 @@ fn one_msg(ctx: &mut Ctx, m: &ControlMessage, id: Option<u64>) {
         return;
     };
     if let Some(n) = id {
-        let cls = if n >= 1 << 63 { KF_SIGN } else { "gen" };
-        ctx.prop(cls, &format!("c08idprop {} {}", n, term_text(&t)), "ok");
+        ctx.prop("gen", &format!("c08idprop {} {}", n, term_text(&t)), "ok");
     }
     // in memory: from_term(to_term(m))
     let (res, _) = rt_result(&t);
     ctx.tie("gen", &format!("c08rt {}", term_text(&t)), &res);
-    let mem_cls = match id {
-        Some(n) if n >= 1 << 63 => KF_SIGN,
-        _ => "gen",
-    };
-    ctx.prop(mem_cls, &format!("c08wireprop {} {}", mt, parse_only(&t)), "ok");
+    ctx.prop("gen", &format!("c08wireprop {} {}", mt, parse_only(&t)), "ok");
+    // in memory the round trip is the identity on the Rust value itself (not for a `Generic` whose type and arity
+    // are those of a structured variant; the generator avoids those)
+    match from_term(&t) {
+        Ok(back) if back == *m => ctx.count("memory_identity"),
+        Ok(back) => ctx.fail("c08-memory-roundtrip-differs", &format!("{} -> {}", mt, msg_text(&back))),
+        Err(e) => ctx.fail("c08-memory-roundtrip-rejected", &format!("{} -> {}", mt, e)),
+    }
     // over the wire
     let bytes = match catch_unwind(AssertUnwindSafe(|| erltf::encode(&t))) {
         Ok(Ok(b)) => b,
@@ -480,7 +457,15 @@ fn one_msg(ctx: &mut Ctx, m: &ControlMessage, id: Option<u64>) {
         ctx.tie("gen", &format!("c08wire {}", mt), &after);
         ctx.count("wire_model_tie");
     }
-    ctx.prop(wire_class(id), &format!("c08wireprop {} {}", mt, after), "ok");
+    ctx.prop("gen", &format!("c08wireprop {} {}", mt, after), "ok");
+    if id.is_some() && t.as_tuple().map(|l| l.iter().skip(2).all(is_wire_stable)).unwrap_or(false) {
+        // the fields after the id come back as the same Rust values, so the whole message must
+        match from_term(&dec) {
+            Ok(back) if back == *m => ctx.count("wire_identity"),
+            Ok(back) => ctx.fail("c08-wire-roundtrip-differs", &format!("{} -> {}", mt, msg_text(&back))),
+            Err(e) => ctx.fail("c08-wire-roundtrip-rejected", &format!("{} -> {}", mt, e)),
+        }
+    }
     ctx.count(if after == "err" { "wire_rejected" } else { "wire_ok" });
 }
 
@@ -514,7 +499,7 @@ fn structured(ctx: &mut Ctx) {
     // Generic messages with a type the library has no arm for (these come back as Generic)
     let n = ctx.n(40, 200);
     for _ in 0..n {
-        let ty = *ctx.rng.pick(&[0u8, 9, 10, 11, 14, 15, 17, 37, 39, 40, 100, 200, 255]);
+        let ty = *ctx.rng.pick(&[0u8, 9, 10, 11, 14, 15, 17, 37, 38, 39, 40, 100, 200, 255]);
         let k = ctx.rng.below(6) as usize;
         let plain = ctx.rng.chance(1, 2);
         let fields: Vec<OwnedTerm> =
@@ -574,15 +559,81 @@ fn numbering(ctx: &mut Ctx) {
                 };
                 // Lean prints "," ++ names joined by ","; an empty list is a single ","
                 ctx.tie("gen", &format!("c08row {}", v), &format!("{} {}", row(tag, &marked), row(tag2, &marked2)));
-                let cls = if *v == "AliasSendTt" { KF_ALIAS } else { "gen" };
-                ctx.prop(cls, &format!("c08num {} {} {}", v, tag, if plain.is_empty() { ",".to_string() } else { plain.join(",") }), "ok");
+                ctx.prop("gen", &format!("c08num {} {} {}", v, tag, if plain.is_empty() { ",".to_string() } else { plain.join(",") }), "ok");
             }
             _ => ctx.fail("c08-marker-message-unreadable", v),
         }
     }
 }
 
+/// the witnesses of the three repaired defects, checked on the Rust values directly
+fn former_findings(ctx: &mut Ctx) {
+    // ALIAS_SEND_TT is 34
+    let t = OwnedTerm::Tuple(vec![OwnedTerm::Integer(34), a_pid(), atom("alias"), atom("tok")]);
+    match from_term(&t) {
+        Ok(ControlMessage::AliasSendTt { .. }) => ctx.count("former_alias_send_tt_ok"),
+        other => ctx.fail("c08-tag-34-is-not-alias-send-tt", &format!("{:?}", other.map(|m| msg_text(&m)))),
+    }
+    let t38 = OwnedTerm::Tuple(vec![OwnedTerm::Integer(38), a_pid(), atom("alias"), atom("tok")]);
+    match from_term(&t38) {
+        Ok(ControlMessage::Generic { message_type: 38, .. }) => ctx.count("former_tag_38_generic"),
+        other => ctx.fail("c08-tag-38-is-not-generic", &format!("{:?}", other.map(|m| msg_text(&m)))),
+    }
+    // unlink ids over the whole u64 range, in memory and across encode/decode, both operations
+    for &id in ID_BOUNDS {
+        for ack in [false, true] {
+            let m = if ack {
+                ControlMessage::UnlinkIdAck { id, from_pid: a_pid(), to_pid: a_pid() }
+            } else {
+                ControlMessage::UnlinkId { id, from_pid: a_pid(), to_pid: a_pid() }
+            };
+            let t = m.to_term();
+            let mem = from_term(&t);
+            let wire = erltf::encode(&t).ok().and_then(|b| erltf::decode(&b).ok()).map(|d| from_term(&d));
+            if mem.as_ref().ok() != Some(&m) {
+                ctx.fail("c08-unlink-id-memory", &format!("id={} {:?}", id, mem.map(|x| msg_text(&x))));
+            } else if wire.as_ref().and_then(|r| r.as_ref().ok()) != Some(&m) {
+                ctx.fail("c08-unlink-id-wire", &format!("id={} {:?}", id, wire.map(|r| r.map(|x| msg_text(&x)))));
+            } else {
+                ctx.count("former_unlink_id_ok");
+            }
+        }
+    }
+    // ids a peer may send as a bignum: minimal, with high zero digits, "negative" zero; and what must be refused
+    let accept: &[(&[u8], bool, u64)] = &[
+        (&[5], false, 5),
+        (&[7, 0, 0], false, 7),
+        (&[0, 0, 0, 128], false, 1 << 31),
+        (&[0, 0, 0, 0, 0, 0, 0, 128], false, 1 << 63),
+        (&[255, 255, 255, 255, 255, 255, 255, 255], false, u64::MAX),
+        (&[255, 255, 255, 255, 255, 255, 255, 255, 0, 0, 0], false, u64::MAX),
+        (&[0, 0], true, 0),
+        (&[], false, 0),
+    ];
+    for (d, neg, want) in accept {
+        let t = OwnedTerm::Tuple(vec![OwnedTerm::Integer(35), big(*neg, d), a_pid(), atom("b")]);
+        match from_term(&t) {
+            Ok(ControlMessage::UnlinkId { id, .. }) if id == *want => ctx.count("bigint_id_accepted"),
+            other => ctx.fail("c08-bigint-id-not-read", &format!("{} {:?}", term_text(&t), other.map(|m| msg_text(&m)))),
+        }
+    }
+    let refuse: &[(&[u8], bool)] = &[
+        (&[0, 0, 0, 0, 0, 0, 0, 0, 1], false),
+        (&[1, 0, 0, 0, 0, 0, 0, 0, 1, 0, 0], false),
+        (&[1], true),
+        (&[0, 0, 0, 0, 0, 0, 0, 128], true),
+    ];
+    for (d, neg) in refuse {
+        let t = OwnedTerm::Tuple(vec![OwnedTerm::Integer(36), big(*neg, d), a_pid(), atom("b")]);
+        match from_term(&t) {
+            Err("err") => ctx.count("bigint_id_refused"),
+            other => ctx.fail("c08-bad-bigint-id-not-refused", &format!("{} {:?}", term_text(&t), other.map(|m| msg_text(&m)))),
+        }
+    }
+}
+
 pub fn run(ctx: &mut Ctx) {
+    former_findings(ctx);
     numbering(ctx);
     exhaustive(ctx);
     wider(ctx);
